@@ -179,7 +179,7 @@ impl ExecutionError {
 pub open spec fn uncatchable<T>(r: ExecutionResult<T>) -> bool { r matches Err(ExecutionError::Uncatchable(_)) }
 
 // ---------------------------------------------------------------- shim: the context's sub-objects (trusted)
-pub struct Scalars<'i> { pub ph: PhantomData<&'i u8> }
+pub struct Scalars<'i> { pub opaque_payload: u64, pub ph: PhantomData<&'i u8> }
 pub struct Streams { pub x: u8 }
 pub struct StreamMaps { pub x: u8 }
 pub struct LastErrorDescriptor { pub x: u8 }
@@ -285,7 +285,7 @@ pub mod ast {
 //@ lift crates/air-lib/air-parser/src/ast/values.rs :: struct CanonStream
 //@ derive
 //@ end
-    pub struct ResolvableToPeerIdVariable<'i> { pub ph: PhantomData<&'i u8> }
+    pub struct ResolvableToPeerIdVariable<'i> { pub opaque_payload: u64, pub ph: PhantomData<&'i u8> }
 //@ lift crates/air-lib/air-parser/src/ast/instructions.rs :: struct Canon
 //@ derive
 //@ end
